@@ -3,7 +3,7 @@ from __future__ import annotations
 import ast
 import functools
 import itertools
-from collections.abc import Iterable, Mapping, Sequence
+from collections.abc import Generator, Iterable, Mapping, Sequence
 from numbers import Number
 from typing import (
     Any,
@@ -376,6 +376,17 @@ class ConstraintOperatorResolver(OperatorResolver):  # pylint: disable=unnecessa
     These operators describe a regular algebra rather than a Wikinson formula
     one.
     """
+
+    def resolve(
+        self, token: Token
+    ) -> Generator[tuple[Token, Iterable[Operator]], None, None]:
+        # The tokenizer merges adjacent operator characters ("=-", "*-", ",-");
+        # all constraint operators are single characters.
+        if token.token in self.operator_table:
+            yield from super().resolve(token)
+            return
+        for symbol in token.token:
+            yield self._resolve(token, symbol)
 
     @property
     def operators(self) -> list[Operator]:
